@@ -376,6 +376,9 @@ fn compare(children: &[(ChildCfg, ChildOut)], st: &mut Stats) -> Vec<(String, St
                 if phase.starts_with('t') {
                     st.inc("outputs_from_concurrent_threads");
                 }
+                if phase.starts_with('r') {
+                    st.inc("outputs_from_address_reuse_phase");
+                }
                 if flagged {
                     continue;
                 }
@@ -515,6 +518,7 @@ pub fn main(env: &Env) -> i32 {
         return 2;
     }
     let mut rep = Report::new("C14", "exploration", env);
+    rep.expected_probes = vec!["outputs_from_concurrent_threads", "thread_schedules", "distinct_probe_set_iteration_orders", "distinct_heap_probe_addresses", "outputs_from_address_reuse_phase"];
     rep.real.push("separately started OS processes (fork/exec of this binary), real std threads inside them".into());
     rep.stubs = vec![
         "process entropy: LD_PRELOAD getrandom()/getentropy() shim answering from a PRNG seeded by VERIF_HASH_SEED (decides every RandomState key in the process)".into(),
